@@ -379,3 +379,9 @@ Lemma slash_price ba sa bd amount :
 Proof.
   unfold price_le. cbn [bal tsh]. intros _. apply N.mul_le_mono_r. lia.
 Qed.
+
+Lemma others_never_lose_l p dst src x u :
+  (rcode (deposit p dst src x) = COk -> worth p u <= worth (rpool (deposit p dst src x)) u) /\
+  (rcode (withdraw p dst src x) = COk -> u + x <= tsh p ->
+   worth p u <= worth (rpool (withdraw p dst src x)) u).
+Proof. split; [apply others_never_lose_deposit|apply others_never_lose_withdraw]. Qed.
